@@ -1,7 +1,8 @@
 #!/bin/bash
 # Regression matrix: applies every seeded change to the repository copy the harness is linked
 # against, runs the checks named in its meta.json (quick tier) and expects each to exit 1 with a
-# VIOLATION line; afterwards confirms that the unchanged tree passes them again.
+# VIOLATION line (a change whose meta.json says "tier": "thorough" is run in that tier; changes recorded as
+# not judged / not caught have an empty caught_by list); afterwards confirms that the unchanged tree passes them again.
 # Meant for a scratch copy: VERIF=<copy of /verif> whose `subject` link points at a scratch worktree.
 set -u
 VERIF="${VERIF:-/verif}"
@@ -14,8 +15,9 @@ for d in "$VERIF"/seeded/*/; do
   [ -f "$d/meta.json" ] || continue
   checks=$(python3 -c "import json,sys; print(' '.join(json.load(open('$d/meta.json'))['caught_by']))")
   if ! git apply "$d/patch.diff" 2>/dev/null; then echo "$id: patch does not apply"; fail=$((fail+1)); continue; fi
+  tier=$(python3 -c "import json; print(json.load(open('$d/meta.json')).get('tier','quick'))")
   for c in $checks; do
-    out=$(cd "$VERIF" && ./check "$c" --tier quick 2>&1); code=$?
+    out=$(cd "$VERIF" && ./check "$c" --tier "$tier" 2>&1); code=$?
     if [ "$code" = 1 ] && echo "$out" | grep -q "^VIOLATION property=$c"; then
       echo "$id: $c reports the violation"; pass=$((pass+1))
     else
